@@ -98,7 +98,8 @@ def exc_kind(cls: str) -> str | None:
 # ---------------------------------------------------------------------------
 # program registry
 # ---------------------------------------------------------------------------
-PROGRAMS: dict[int, dict[str, Any]] = {}
+WARMUP_PID = 0  # built-in program: a silent unary call, used to wait until a subprocess worker is up
+PROGRAMS: dict[int, dict[str, Any]] = {WARMUP_PID: {"logs": [], "result": {"ok": 0}}}
 CALLS: list[tuple[Any, ...]] = []  # server-side observation (in-process transports only)
 _LOCK = threading.Lock()
 
@@ -561,6 +562,14 @@ def open_transport(kind: str, cfg: dict[str, Any] | None = None, on_log: str = "
         try:
             with RpcConnection(Interp, transport, on_log=rec.on_log, external_location=ext) as proxy:
                 conn.proxy = proxy
+                # Interpreter start-up (importing pyarrow etc. takes seconds under load) must not be charged to the
+                # script's watchdog: wait for the worker with one silent unary call before any script runs.
+                ready: list[Any] = []
+                wt = threading.Thread(target=lambda: ready.append(proxy.unary(pid=WARMUP_PID)), daemon=True)
+                wt.start()
+                wt.join(float(cfg.get("startup_timeout", 120.0)))
+                if ready != [0]:
+                    raise RuntimeError("interp_worker did not answer the warm-up call (worker failed to start)")
                 yield conn
         finally:
             with contextlib.suppress(Exception):
